@@ -601,6 +601,13 @@ def explore(fn, assumptions=(), max_paths=200000, timeout_ms=30000, stop_at_firs
                     res.discharged += 1
                 elif r == "sat":
                     if res.cex is None:
+                        # harness-supplied preferences: stages of extra constraints that make the
+                        # counterexample easier to realise concretely (first satisfiable stage wins)
+                        for stage in (info or {}).get("prefer", []) if isinstance(info, dict) else []:
+                            r2, m2 = c.check(z3.Not(term), *stage)
+                            if r2 == "sat":
+                                model = m2
+                                break
                         model = _shrink(c, z3.Not(term), small, model)
                         res.cex = (model, info, list(c.pc))
                     if stop_at_first:
